@@ -73,6 +73,19 @@ def engines():
                     {"name": "P", "terms": [("Constant", "a", 0.25), ("Constant", "b", 0.75)], "aggregation": None, "defuzzifier": ("WeightedAverage",)}],
         "blocks": [{"conjunction": "Minimum", "disjunction": "Maximum", "implication": "Minimum", "rules": ["if X is a then O is a and P is b", "if X is b then O is b"]},
                    {"conjunction": "AlgebraicProduct", "disjunction": "Maximum", "implication": "Minimum", "rules": ["if O is a and X is b then P is a", "if O is b then P is b with 0.25"]}]}
+    # several conclusions per rule with hedges on the later ones (the degree object is shared between the conclusions of a rule)
+    E["multi-conclusion-hedged"] = {
+        "inputs": [{"name": "X", "terms": IN_TERMS}, {"name": "Y", "terms": IN_TERMS}],
+        "outputs": [{"name": "O", "terms": OUT_TERMS, "aggregation": "Maximum", "defuzzifier": ("Centroid", 2)},
+                    {"name": "P", "terms": OUT_TERMS, "aggregation": "BoundedSum", "defuzzifier": ("MeanOfMaximum", 2)}],
+        "blocks": [{"conjunction": "Minimum", "disjunction": "Maximum", "implication": "AlgebraicProduct",
+                    "rules": ["if X is a then O is a and P is not b", "if Y is b or X is b then P is very a and O is not a and P is b with 0.5"]}]}
+    # input terms that hand the stored input value itself back (Function `x`): in-place arithmetic on a degree would write into the input
+    E["function-input"] = {
+        "inputs": [{"name": "X", "terms": [("Function", "lin", "x"), ("Function", "inv", "1 - x")]}],
+        "outputs": [{"name": "O", "terms": OUT_TERMS, "aggregation": "Maximum", "defuzzifier": ("Centroid", 2)}],
+        "blocks": [{"conjunction": "Minimum", "disjunction": "Maximum", "implication": "Minimum",
+                    "rules": ["if X is lin then O is a with 0.5", "if X is inv then O is b with 0.25", "if X is lin then O is b"]}]}
     return E
 
 
